@@ -78,7 +78,14 @@ theorem C06_flush_step (table : List (Nat × Nat × List FOp)) (s : BSt) (j : Na
     raised, **every record accepted by any context of any thread** with a timestamp **strictly smaller** than `st`'s
     has been popped, i.e. written (and, by `C06_flush_step`, every active sink was flushed after that and before the
     raise). A log call that completed before `flush_log()` began has such a timestamp unless the two clock reads
-    coincide (ties are broken by cache position in `lowest` and are not claimed). -/
+    coincide. **Ties** (`r.ts = st.ts`): `lowest` replaces its candidate only on a strictly smaller timestamp, so among
+    equal front timestamps the context that comes first in the backend's cache (registration order) is processed first.
+    What holds at a tie is therefore decided by cache order: a record of a context that precedes the caller's in the
+    cache is written before the flag is raised (`C06_tie_earlier_context_written`), one of a context that comes after
+    the caller's is not (`C06_tie_later_context_not_written`: the flag is raised, `flush_log()` returns, the record of the
+    other thread — whose log call had completed before — is still unwritten). Both are exhibited on concrete schedules
+    (`decide`); the general tie statement ("written iff its context precedes the caller's in the cache") is not proved.
+    The H2 oracle claims strictly smaller clock values only. -/
 theorem C06_other_threads (s0 : BSt) (h0 : StartF s0) (hg : s0.cfg.grace ≠ 0) (hr : s0.cfg.refreshAfterSample = true)
     (ops : List Op) (hp : GracePremise (runOps s0 ops)) (i : Nat) (st : Stmt) (f : Nat)
     (hst : st ∈ ((runOps s0 ops).th i).accepted) (hk : st.kind = .flush f) (hf : f ∈ (runOps s0 ops).flags)
@@ -341,6 +348,40 @@ example :
     (runOps (c05Init true) c06Window).flags = [] ∧
     (runOps (c05Init true) c06Window).ths.map (fun t => (t.accepted.map (·.ts), t.popped.map (·.ts))) =
       [([1000, 1101], [1000]), ([1100], [1100])] := by
+  decide
+
+/-- a tie, the caller's context first in the cache: thread 1 (the later flush caller) registers first (context 0), thread 2
+    logs at 1100 (context 1) and thread 1 calls `flush_log()` at the very same clock value -/
+def c06TieLate : List Op :=
+  [ .front (.tstart 1), .front (.tstart 2), .front (.log 1 0 4 10 true), .front (.tick 100), .poll [],
+    .front (.log 2 0 4 10 true), .front (.flush 1 0), .front (.tick 100), .poll [], .front (.resume 1) ]
+
+/-- the same with thread 2's context first in the cache -/
+def c06TieEarly : List Op :=
+  [ .front (.tstart 1), .front (.tstart 2), .front (.log 2 0 4 10 true), .front (.tick 100), .poll [],
+    .front (.log 2 0 4 10 true), .front (.flush 1 0), .front (.tick 100), .poll [], .front (.resume 1),
+    .poll [], .front (.resume 1) ]
+
+/-- **Tie, the other thread's context after the caller's: not covered.** Equal timestamps (1100), repaired order, premise
+    met: the Flush event wins the tie (cache position 0), the flag is raised and the caller released while thread 2's
+    statement — logged before `flush_log()` was called — is still unwritten. `C06_other_threads` cannot be extended to `≤`. -/
+theorem C06_tie_later_context_not_written :
+    GracePremise (runOps (c05Init true) c06TieLate) ∧ (runOps (c05Init true) c06TieLate).flags = [0] ∧
+    (runOps (c05Init true) c06TieLate).cache = [0, 1] ∧
+    (runOps (c05Init true) c06TieLate).actors.map (fun x => x.pend matches .none) = [true, true] ∧
+    (runOps (c05Init true) c06TieLate).ths.map (fun t => (t.actor, t.accepted.map (·.ts), t.popped.map (·.ts))) =
+      [(1, [1000, 1100], [1000, 1100]), (2, [1100], [])] := by
+  decide
+
+/-- **Tie, the other thread's context before the caller's: covered.** The same clock values with thread 2 registered
+    first: its statement wins the tie; after the poll that pops it the flag is not raised yet, the next poll raises it. -/
+theorem C06_tie_earlier_context_written :
+    (runOps (c05Init true) (c06TieEarly.take 10)).flags = [] ∧
+    (runOps (c05Init true) (c06TieEarly.take 10)).ths.map (fun t => (t.actor, t.accepted.map (·.ts), t.popped.map (·.ts))) =
+      [(2, [1000, 1100], [1000, 1100]), (1, [1100], [])] ∧
+    (runOps (c05Init true) c06TieEarly).flags = [0] ∧
+    (runOps (c05Init true) c06TieEarly).ths.map (fun t => (t.actor, t.accepted.map (·.ts), t.popped.map (·.ts))) =
+      [(2, [1000, 1100], [1000, 1100]), (1, [1100], [1100])] := by
   decide
 
 /-- two sinks, two loggers (logger 0 → sink 0, logger 1 → sink 1), ordering disabled -/
